@@ -614,8 +614,9 @@ def gen_member_stmt(rng, cls):
             toks += rng.choice(MS_QUALS)
         toks += list(rng.choice(MS_ENDS if dtor else MS_CTOR_ENDS))
         return toks, 1
-    base = ('B', rng.choice(['Foo', 'Bar', 'T', cls]), False, False)
-    toks = pre + [base[1]]
+    # (fundamental type names, one or several keywords: Parse/Declarator.v fund_code)
+    base = ('B', rng.choice(['Foo', 'Bar', 'T', cls, 'int', 'unsigned long', 'bool', 'long long', 'char']), False, False)
+    toks = pre + base[1].split()
     n = rng.choice([1, 1, 2, 3])
     last_m = False
     for i in range(n):
